@@ -303,7 +303,10 @@ def build_jobs(prop, tier):
         J.append(ReaderJob("c18", plain_suites("fasta", tier, fl)[3:4] + plain_suites("fastq", tier, fl)[3:4] + history_suites("fasta", tier, fl, seeks=False)[1:] + history_suites("fastq", tier, fl, seeks=False) + reuse))
     elif prop == "C19":
         fl = {"serde": True}
-        J.append(ReaderJob("c19", plain_suites("fasta", tier, fl)[2:4] + plain_suites("fastq", tier, fl)[2:4] + history_suites("fasta", tier, fl, serde=True)[1:] + history_suites("fastq", tier, fl, serde=True)))
+        # (the last two suites also log every view of the records of the deserialised sets)
+        flv = {"serde": True, "views": True}
+        J.append(ReaderJob("c19", plain_suites("fasta", tier, fl)[2:4] + plain_suites("fastq", tier, fl)[2:4] + history_suites("fasta", tier, fl, serde=True)[1:] + history_suites("fastq", tier, fl, serde=True)
+                           + history_suites("fasta", tier, flv, serde=True)[2:] + history_suites("fastq", tier, flv, serde=True)[1:]))
     if prop in ("C01", "C02", "C04", "C05", "C06", "C13", "C17"):
         # long regular inputs (66 000 records and more): contents, counts, positions, the final error's line and a far seek at
         # sampled indices around 2^7, 2^8, 2^15, 2^16, judged by arithmetic (TraceLong.tla)
